@@ -28,7 +28,7 @@ int main (int argc, char **argv)
 		int fams[3] = {AF_INET, AF_INET6, AF_UNIX};
 		for (int f = 0; f < 3; f++) {
 			struct sockaddr_in6 full;
-			memset (&full, 0x5a, sizeof full);
+			for (size_t i = 0; i < sizeof full; i++) ((unsigned char *) &full)[i] = (unsigned char) (i * 7 + 1);  /* all fields distinct */
 			full.sin6_family = fams[f];
 			unsigned char *buf = malloc (len ? len : 1);  /* exactly len bytes: ASan guards the rest */
 			memset (buf, 0x5a, len);
@@ -39,7 +39,7 @@ int main (int argc, char **argv)
 			if ((a != NULL) != want) { printf ("REPRODUCED: len=%lu family=%d result %p, expected %s\n", len, fams[f], (void *) a, want ? "address" : "NULL"); bad = 1; }
 			if (a) {
 				struct sockaddr_in6 back; memset (&back, 0, sizeof back);
-				if (!p_socket_address_to_native (a, &back, sizeof back) || memcmp (&back, buf, fams[f] == AF_INET ? 8 : need)) {
+				if (!p_socket_address_to_native (a, &back, sizeof back) || memcmp (&back, buf, fams[f] == AF_INET ? 8 : sizeof (struct sockaddr_in6))) {
 					printf ("REPRODUCED: round trip differs for family %d\n", fams[f]); bad = 1; }
 				p_socket_address_free (a);
 			}
